@@ -744,7 +744,7 @@ func c17Queries(c *vk.Ctx, i int) {
 
 func runC17(c *vk.Ctx) {
 	c.Rule("(a) direct similarity calls on boundary statistics (freq to 2^31, lengths to 2^30, n <= N <= 2^40, seven boosts): finite/positive, monotone in tf, length, rarity, boost-linear, explanation derives the score; " +
-		"(b) metamorphic corpora (same length tf+k; same tf longer field; same tf/length rarer term) through term searches; (c) boost ratio per public query type for boosts 2, 3, 0.5; " +
+		"(b) metamorphic corpora (same length tf+k; same tf longer field; same tf/length rarer term) through term searches, also with other fields repeating the terms, with pending deletions, and with the scored field given as several values of one name (twins: same tokens in one value / no positions recorded); (c) boost ratio per public query type for boosts 2, 3, 0.5; " +
 		"(d) boolean query score = own boost x sum of the separately searched matching parts; (e) explained vs unexplained score and every explanation node's formula over generated query trees. " +
 		"distinct non-trivial = distinct statistic magnitude classes / corpus parameters / query kinds and shapes that produced at least one scored hit")
 	c.Assume("monotonicity on boundary statistics is judged non-strictly (floating-point saturation makes large tf scores equal), strictly on the metamorphic corpora (small tf)",
@@ -769,6 +769,7 @@ func runC17(c *vk.Ctx) {
 					c17Metamorphic(c, i-nQ)
 					c17MultiField(c, i-nQ)
 					c17WithDeletions(c, i-nQ)
+					c17MultiValued(c, i-nQ)
 				default:
 					return
 				}
@@ -777,6 +778,7 @@ func runC17(c *vk.Ctx) {
 	}
 	wg.Wait()
 	c.Event("searches_aborted_by_step_limit_see_C10", int(stepLimitHits.Load()))
+	c.Require("multi_valued_field_twins", 50)
 	c.Require("metamorphic_corpora", 50)
 	c.Require("explained_hits", 200)
 	c.Require("compound_sums_checked", 50)
